@@ -1308,6 +1308,16 @@ impl Compiler {
             // position of the instruction that comes after the 'then' statement
             self.patch_jump(jump_if_false_pos);
         }
+        // A filter is run from outside of any function call, so it has no
+        // enclosing activation to capture variables from
+        if !self.symtab.free_symbols.is_empty() {
+            self.leave_scope();
+            self.filter_scope = outer_filter_scope;
+            return Err(CompileError::new(
+                "a filter statement cannot use local variables of an enclosing function",
+                expr.token.line,
+            ));
+        }
         // Get the number of locals and create the function
         let num_locals = self.symtab.get_num_definitions();
         let instructions = self.leave_scope();
